@@ -218,7 +218,7 @@ PROPS['C10'] = {
     'technique': 'Engine M: event skeletons (lock acquire/release + database and cache calls) of add_appointment and of the watcher\'s block connection extracted from MIR; '
                  'z3/cvc5 decide whether an interleaving respecting mutual exclusion reaches the bad order',
     'bounds': '2 threads, every pair of extracted traces (loops unrolled twice), interleavings at event granularity',
-    'outside': 'general serialisability/linearizability (only the named race patterns are decided); tokio; data races inside sqlite; the double-charge race of two concurrent submissions of the same appointment (candidate F10) is not claimed',
+    'outside': 'general serialisability/linearizability (only the named race patterns are decided); tokio; data races inside sqlite',
     'assumptions': M_ASSUME,
     'models': [],
     'obligations': [],
@@ -396,3 +396,5 @@ K('C01', 'P1.block_connected_breach', 'teos', _w + 'c01_p1_block_connected_breac
 K('C01', 'P1.block_connected_garbled', 'teos', _w + 'c01_p1_block_connected_garbled', 'same with a blob that does not decrypt: nothing sent, only that appointment dropped, no refund', 'thorough')
 PROPS['C04']['assumptions'] = PROPS['C04']['assumptions'] + M_ASSUME[:2]
 PROPS['C01']['outside'] = 'the six-block window is C19; real decryption (ideal-cipher stub); multi-breach blocks beyond one locator with two appointments; SQL; get_breaches with more than 2 transactions per block'
+
+M('C10', 'M2.double_charge', 'double_charge', 'no interleaving of two add_appointment requests for the same appointment lets both read "not stored yet" (get_appointment_length) before either has stored it: charged once (charge and store are one critical section under the locator cache lock)')
